@@ -242,6 +242,9 @@ def direct_predicate(c, r, partner=None):
     for k in ("st", "cw", "cwi", "cwn"):
         if k in r and "error" in r[k]:
             bad.append((f"raises:{k}:{r[k]['error']}", f"{k} raised {r[k]['error']}: {r[k].get('msg', '')}"))
+    if r.get("stable") is False:
+        bad.append(("read-mutates", "the state's reported weights / evidence changed after merely reading its public properties "
+                    "(and editing the returned arrays)"))
     if bad or degenerate(c):
         return bad
     st, cw = r["st"], r["cw"]
